@@ -58,7 +58,10 @@ def gatherClass (r : Reg Float) : String :=
   else if !(live.all (fun m => r.pre.all fun p => p.1 != m.name ||
       (p.2.1 == m.ty && m.series.all fun s => ((m.vecs.find? (·.names == s.labels.map (·.1))).map (·.help)) == some p.2.2)))
     then "preregistered_name_collision"
-  else "observer_companion_unchecked"
+  -- a suffix collision among the statsd families themselves is the repaired defect (edd038c; impossible in the model:
+  -- SE.Props.C03.statsd_families_suffix_free); what remains is a collision with a pre-registered family
+  else if suffixCollision (live.map fun m => (m.name, m.ty)) then "observer_companion_unchecked"
+  else "preregistered_name_collision"
 
 def counterValues (r : Reg Float) : List ((Bytes × Labels) × Float) :=
   r.metrics.flatMap fun m =>
